@@ -99,10 +99,10 @@ impl Lexer {
     /// Check if the given character is whitespace, excluding newlines.
     ///
     /// This function will return true if the current character is a space,
-    /// tab, or comma. Newlines are not considered whitespace as it is a
-    /// token in the lexer.
+    /// tab, carriage return, or comma. Newlines are not considered whitespace
+    /// as it is a token in the lexer.
     fn is_ws(ch: char) -> bool {
-        ch == ' ' || ch == '\t' || ch == ','
+        ch == ' ' || ch == '\t' || ch == '\r' || ch == ','
     }
 
     /// Check if the given character is a character usable in a symbol.
